@@ -3,7 +3,7 @@
    used for the core fragment.  Cnl/Core.v: the core fragment F0, its compile model (byte-exact on F0), grounding, and the reading. *)
 Require Import Coq.Strings.String Coq.Lists.List Coq.Bool.Bool.
 Require Import Coq.ZArith.ZArith Lia.
-Require Import Cnl2aspV.Asp.Ground Cnl2aspV.Cnl.Core Cnl2aspV.Cnl.CoreProofs Cnl2aspV.Cnl.CoreOneOf Cnl2aspV.Cnl.CoreDef Cnl2aspV.Cnl.CoreChoice Cnl2aspV.Cnl.CoreChoiceEach Cnl2aspV.Cnl.CoreWhere Cnl2aspV.Cnl.Comparison Cnl2aspV.Cnl.CoreProgram Cnl2aspV.Cnl.CoreSupport Cnl2aspV.Cnl.CoreStable.
+Require Import Cnl2aspV.Asp.Ground Cnl2aspV.Cnl.Core Cnl2aspV.Cnl.CoreProofs Cnl2aspV.Cnl.CoreOneOf Cnl2aspV.Cnl.CoreDef Cnl2aspV.Cnl.CoreChoice Cnl2aspV.Cnl.CoreChoiceEach Cnl2aspV.Cnl.CoreWhere Cnl2aspV.Cnl.Comparison Cnl2aspV.Cnl.CoreProgram Cnl2aspV.Cnl.CoreSupport Cnl2aspV.Cnl.CoreStable Cnl2aspV.Cnl.CoreExact.
 Import ListNotations.
 
 (* for hierarchical ground programs (no predicate depends on itself): I is a stable model iff it satisfies the constraints and
@@ -348,4 +348,28 @@ Proof.
   intros x [<-|[<-|[<-|[<-|[]]]]]; (split; [|exact Logic.I]); cbn [covered]; unfold declared, concept_names; cbn [map concepts c_name In ch_foreach];
     repeat split; try discriminate; try (vm_compute; tauto); auto;
     try (vm_compute; repeat constructor; cbn; intuition discriminate).
+Qed.
+
+(* ... and for EVERY interpretation: when the concept names are pairwise different and contain no '(', the hypothesis on the
+   concept atoms of I follows from either side (from stability: closedness and supportedness of the ground program; from the
+   reading: its first two clauses; both by the injectivity of the atom text in name and argument), so the answer sets of the
+   ground compiled program ARE the models of the reading.  This is the property's statement, for all specifications of the
+   sub-fragment and all interpretations; `_partial` only because the sub-fragment is not all of F0 (derived definitions in the
+   program, multi-clause bodies, 'is one of') and because grounding is the model's. *)
+Theorem C01_answer_sets_are_the_models_every_interpretation_partial :
+  forall (s : spec) (I : interp),
+    names_ok s ->
+    separated s (universe s) = true ->
+    (forall x, In x (sentences s) -> covered s x /\ no_definition x) ->
+    (stable (ground s) I <-> reading s I = true).
+Proof. intros s I Hn Hsep Hcov. exact (stable_iff_reading_all s I Hn Hsep Hcov). Qed.
+Print Assumptions C01_answer_sets_are_the_models_every_interpretation_partial.
+
+Example C01_names_ok_example :
+  names_ok {| concepts := [{| c_name := "room"; c_key := "id"; c_dom := DRange 1 2 |}; {| c_name := "shelf"; c_key := "id"; c_dom := DRange 1 2 |};
+                           {| c_name := "day"; c_key := "id"; c_dom := DEnum ["mon"] |}]; sentences := [] |}.
+Proof.
+  split.
+  - vm_compute. repeat constructor; cbn; intuition discriminate.
+  - intros n Hn. vm_compute in Hn. destruct Hn as [<-|[<-|[<-|[]]]]; reflexivity.
 Qed.
